@@ -24,7 +24,7 @@ PROP_FILES = {
             "preflate_parameter_estimator.rs", "preflate_input.rs", "bit_helper.rs"],
     "C03": ["deflate_reader.rs", "huffman_encoding.rs", "huffman_helper.rs", "bit_reader.rs", "preflate_constants.rs"],
     "C04": ["hash_algorithm.rs", "hash_chain.rs", "huffman_calc.rs", "tree_predictor.rs", "token_predictor.rs", "hash_chain_holder.rs", "add_policy_estimator.rs",
-            "cabac_codec.rs", "statistical_codec.rs", "preflate_parameter_estimator.rs", "preflate_container.rs", "idat_parse.rs"],
+            "cabac_codec.rs", "statistical_codec.rs", "preflate_parameter_estimator.rs", "preflate_container.rs", "idat_parse.rs", "preflate_token.rs", "process.rs"],
     "C05": ["deflate_reader.rs", "huffman_helper.rs", "complevel_estimator.rs", "depth_estimator.rs", "preflate_stream_info.rs", "add_policy_estimator.rs",
             "preflate_parameter_estimator.rs", "hash_chain.rs", "preflate_token.rs"],
     "C06": ["scan_deflate.rs", "idat_parse.rs"],
@@ -102,6 +102,8 @@ def sites(fname):
 def gen(n, seed, outdir):
     os.makedirs(outdir, exist_ok=True)
     files = sorted(f for f in os.listdir(os.path.join(REPO, "src")) if f.endswith(".rs") and f not in SKIP_FILES)
+    if os.environ.get("MUT_FILES"):      # restrict to the named files (space separated)
+        files = [f for f in files if f in os.environ["MUT_FILES"].split()]
     rnd = random.Random(seed)
     per_file = {f: sites(f) for f in files}
     per_file = {f: s for f, s in per_file.items() if s}
